@@ -15,8 +15,8 @@ type intrinsic func(x *Exec, caller *frame, fn *ssa.Function, args []Value) Valu
 
 const vrPkg = "github.com/zmap/zcrypto/internal/verifrt."
 
-var intrinsics map[string]intrinsic
-var initCuts map[string]intrinsic
+var intrinsics = map[string]intrinsic{}
+var initCuts = map[string]intrinsic{}
 
 func strArg(v Value) string {
 	s, ok := v.(*Str).concrete()
@@ -71,8 +71,8 @@ func allConcrete(args []Value) bool {
 }
 
 func init() {
-	intrinsics = map[string]intrinsic{}
-	initCuts = map[string]intrinsic{}
+
+
 	I := intrinsics
 
 	// ---------- verifrt ----------
